@@ -17,6 +17,7 @@ import (
 	"strings"
 	"sync"
 	"sync/atomic"
+	"time"
 
 	"verif/lib/bmgen"
 	"verif/lib/bmsys"
@@ -288,7 +289,7 @@ func jobKey(job childJob) string {
 }
 
 // prefetchChildren runs the fresh-process loads of the given jobs, at most par at a time.
-func prefetchChildren(jobs []childJob, par int) {
+func prefetchChildren(jobs []childJob, par int, deadline time.Time) {
 	sem := make(chan struct{}, par)
 	var wg sync.WaitGroup
 	for _, j := range jobs {
@@ -296,8 +297,8 @@ func prefetchChildren(jobs []childJob, par int) {
 		childCacheMu.Lock()
 		_, done := childCache[k]
 		childCacheMu.Unlock()
-		if done {
-			continue
+		if done || time.Now().After(deadline) {
+			continue // past the deadline the main loop loads synchronously under its own budget check
 		}
 		wg.Add(1)
 		sem <- struct{}{}
